@@ -32,6 +32,10 @@ NOT_FUNCS = {"np.bitwise_not", "numpy.bitwise_not", "np.logical_not",
 
 
 MUTANTS = [
+    ("image copied to single precision before masking", "AegeanTools/MIMAS.py",
+     "        data = np.squeeze(im[0].data)\n",
+     "        data = np.array(np.squeeze(im[0].data), dtype=np.float32)\n",
+     "C10-R9"),
     ("cube planes blanked from the first plane's NaNs", "AegeanTools/MIMAS.py",
      "        for plane in range(data.shape[0]):\n"
      "            mask_plane(data[plane], wcs, region, negate)\n",
@@ -672,6 +676,14 @@ def run(ctx):
         ctx.check("C10-R4", mf, "negate forwarded in 2-d branch",
                   "negate" in inv, "the 2-d branch drops the negate option",
                   node=c)
+    # ---------------------------------------------------------------- R9
+    from .. import precision
+    precision.rule(
+        ctx, prog, "C10-R9", ["MIMAS.mask_file", "MIMAS.mask_plane"],
+        "all other pixel values are unchanged: masking neither casts nor "
+        "copies the image into a narrower floating-point type (a float64 "
+        "or 32-bit integer image would come back rounded to 7 digits)",
+        "a narrow dtype is used on the way of the pixel values", floor=2)
     # ---------------------------------------------------------------- R8
     ctx.rule("C10-R8", "undefined coordinates are never inside: the "
              "non-finite mask of Region.sky_within is taken from values that "
